@@ -216,6 +216,8 @@ def _scipy_io_read_signal(rfilename, dtype, key, **kwargs):
 def _wave_read_signal(rfilename, dtype, key, **kwargs):
     import wave
 
+    # without a mode, wave.open takes the stream's own, and rejects read-write streams ("rb+", "w+b")
+    kwargs.setdefault("mode", "rb")
     wave_file = wave.open(rfilename, **kwargs)
     try:
         dtype_in = "<i{}".format(wave_file.getsampwidth())
